@@ -286,6 +286,40 @@ pub fn find_layout_demo(from: u64, count: u64) -> Vec<u64> {
     v
 }
 
+/// Keeps the recorded finding demonstrable when the build changes: the stored demonstration
+/// (`regress/C17/known-table-layout-solver-cycling.json`) fixes the hash seeds, but which seeds
+/// make the solver cycle depends on how many maps the code creates before the frame is laid out.
+/// If the stored one no longer reproduces, a bounded search over seeds looks for another.
+pub struct LayoutDemoSearch;
+
+impl SubCheck for LayoutDemoSearch {
+    fn name(&self) -> &str {
+        "layout-solver-demo"
+    }
+    fn run(&self, ctx: &Ctx, rep: &Report) {
+        let Some(k) = is_known_open(ctx, LAYOUT_HANG_SIG) else { return };
+        let line = format!("KNOWN-FINDING: property={} {} [{}]", ctx.prop, k.what, k.sig);
+        if rep.inner.lock().unwrap().known_hits.contains(&line) {
+            rep.sub_summary(json!({"sub": "layout-solver-demo", "stored_demonstration_reproduced": true}));
+            return;
+        }
+        let t0 = std::time::Instant::now();
+        let found = find_layout_demo(1000, 6000);
+        rep.inner.lock().unwrap().evaluations += 1;
+        if let Some(key) = found.first() {
+            let mut r = rep.inner.lock().unwrap();
+            r.known_hits.push(line);
+            r.notes.push(format!("layout-solver-demo: the stored demonstration did not reproduce with this build; hash seeds {key} do (search took {:?}); refresh it with `vcheck --find-layout-demo {key} 1 regress/C17/known-table-layout-solver-cycling.json`", t0.elapsed()));
+        } else {
+            rep.note(format!("layout-solver-demo: neither the stored demonstration nor 6000 other hash seeds made the layout solver cycle ({:?})", t0.elapsed()));
+        }
+        rep.sub_summary(json!({"sub": "layout-solver-demo", "stored_demonstration_reproduced": false, "seeds_found": found, "wall_s": t0.elapsed().as_secs_f64()}));
+    }
+    fn replay(&self, _case: &serde_json::Value) -> CheckResult {
+        Ok(())
+    }
+}
+
 pub fn check() -> PropertyCheck {
     PropertyCheck {
         id: "C17",
@@ -299,6 +333,7 @@ pub fn check() -> PropertyCheck {
             Box::new(Pbt { name: "ui-ops", quick: 6_000, thorough: 600_000, strat, test, max_shrink: 3000 }),
             Box::new(Pbt { name: "ui-nav", quick: 6_000, thorough: 600_000, strat: nav_strat, test, max_shrink: 3000 }),
             Box::new(Pbt { name: "ui-settings", quick: 3_000, thorough: 200_000, strat: settings_strat, test, max_shrink: 3000 }),
+            Box::new(LayoutDemoSearch),
         ],
     }
 }
